@@ -358,3 +358,267 @@ func VerifC03Rollover() {
 	verifAssert("rollover-scan-returns-committed-bytes-in-order", same)
 	verifReach("end")
 }
+
+// VerifC04GCInterleavedDelete: a delete that runs while garbage collection is copying a file (after GC has
+// scanned the file's pointers, before it rewrites their offsets) splits or trims pointers GC already knows
+// about. Both operations succeed, and afterwards — in memory and after reopening — a full scan returns exactly
+// the content that remains after both deletes, whatever the first delete, the interleaved delete and the write
+// order were.
+func VerifC04GCInterleavedDelete() {
+	n := verifLen("n", 2, verifParam("n", 3))
+	specs := make([]VerifDomainSpec, n)
+	for i := range specs {
+		d := []byte{byte(16*(i+1) + 0), byte(16*(i+1) + 1), byte(16*(i+1) + 2)}
+		specs[i] = VerifDomainSpec{Start: telem.TimeStamp(100 * (i + 1)), End: telem.TimeStamp(100*(i+1) + 30), Data: d}
+	}
+	order := make([]int, 0, n)
+	for i := 0; i < n; i++ {
+		pos := i
+		if i > 0 {
+			pos = verifLen("write-order", 0, i)
+		}
+		order = append(order, 0)
+		copy(order[pos+1:], order[pos:])
+		order[pos] = i
+	}
+	mem := xfs.NewMem()
+	hook := &xfs.VerifHookFS{FS: mem}
+	// FileSize 7 (effective 6): the first two domains written fill file 1 (a full file leaves the writer pool,
+	// so GC may compact it); one tombstone byte triggers compaction
+	db := verifBuildRealDBCfg(Config{FS: hook, FileSize: 7, GCThreshold: 0.2}, specs, order)
+	ctx := context.Background()
+	// byte-granular deletes inside one domain: sample j of domain i lives at time 100(i+1)+10j
+	type cut struct{ dom, from, to int } // removes bytes [from,to) of domain dom
+	pick := func(label string) cut {
+		c := cut{dom: verifLen(label+".domain", 0, n-1), from: verifLen(label+".from", 0, 2)}
+		c.to = verifLen(label+".to", c.from+1, 3)
+		return c
+	}
+	apply := func(c cut) error {
+		base := telem.TimeStamp(100 * (c.dom + 1))
+		tr := telem.TimeRange{Start: base + telem.TimeStamp(10*c.from), End: base + telem.TimeStamp(10*c.to)}
+		// offsets relative to the pointer that currently holds the bound (earlier cuts may have split the domain)
+		res := func(_ context.Context, domainStart telem.TimeStamp, ts telem.TimeStamp) (telem.Size, telem.TimeStamp, error) {
+			return telem.Size((ts - domainStart) / 10), ts, nil
+		}
+		return db.Delete(ctx, tr, res, res)
+	}
+	first, second := pick("first"), pick("second")
+	verifAssert("first-delete-ok", apply(first) == nil)
+	fired := false
+	var secondErr error
+	hook.OnOpen = func(name string, _ int) {
+		if !fired && len(name) > 3 && name[len(name)-3:] == "_gc" {
+			fired = true
+			secondErr = apply(second)
+		}
+	}
+	gcErr := db.GarbageCollect(ctx)
+	hook.OnOpen = nil
+	verifAssert("gc-with-interleaved-delete-no-error", gcErr == nil)
+	if !fired {
+		return // the first delete did not leave enough garbage for a compaction: nothing interleaved
+	}
+	verifReach("delete-ran-inside-gc")
+	verifAssert("interleaved-delete-ok", secondErr == nil)
+	// reference content: every byte of every domain not removed by either cut, grouped as the index groups it
+	removed := func(dom, j int) bool {
+		return (first.dom == dom && j >= first.from && j < first.to) || (second.dom == dom && j >= second.from && j < second.to)
+	}
+	var want []byte
+	for i := 0; i < n; i++ {
+		for j := 0; j < 3; j++ {
+			if !removed(i, j) {
+				want = append(want, specs[i].Data[j])
+			}
+		}
+	}
+	flat := func(cs []verifContent) []byte {
+		var out []byte
+		for _, c := range cs {
+			out = append(out, c.data...)
+		}
+		return out
+	}
+	sameBytes := func(a, b []byte) bool {
+		if len(a) != len(b) {
+			return false
+		}
+		same := true
+		for i := range a {
+			if a[i] != b[i] {
+				same = false
+			}
+		}
+		return same
+	}
+	got, ok := verifScan(db)
+	verifAssert("scan-after-gc-ok", ok)
+	verifAssert("content-after-gc-is-what-both-deletes-left", sameBytes(flat(got), want))
+	ndb := VerifReopen(db, mem)
+	got2, ok2 := verifScan(ndb)
+	verifAssert("scan-after-reopen-ok", ok2)
+	verifAssert("content-after-reopen-is-what-both-deletes-left", sameBytes(flat(got2), want))
+	verifReach("end")
+}
+
+// VerifC04GCInterleavedWriter: after a reopen, a file with free space and a tombstone is both a candidate for
+// garbage collection and available to new writers. A writer that is opened (and may start writing) while
+// GarbageCollect is between its "has this file a writer?" check and the compaction of that file and that
+// writes and commits after GC has finished must not lose its data: afterwards, in memory and after reopening, a scan returns the old content and the new domain.
+func VerifC04GCInterleavedWriter() {
+	mem := xfs.NewMem()
+	specs := []VerifDomainSpec{
+		{Start: 100, End: 130, Data: []byte{0x10, 0x11, 0x12}},
+		{Start: 200, End: 220, Data: []byte{0x20, 0x21}},
+	}
+	cfg := Config{FS: mem, FileSize: 20, GCThreshold: 0.05}
+	db := verifBuildRealDBCfg(cfg, specs, nil)
+	ctx := context.Background()
+	// a tombstone: drop `cut` bytes from the head of the first domain
+	cut := verifLen("cut", 1, 2)
+	res := func(_ context.Context, domainStart telem.TimeStamp, ts telem.TimeStamp) (telem.Size, telem.TimeStamp, error) {
+		return telem.Size((ts - domainStart) / 10), ts, nil
+	}
+	verifAssert("setup-delete-ok", db.Delete(ctx, telem.TimeRange{Start: 100, End: telem.TimeStamp(100 + 10*cut)}, res, res) == nil)
+	if err := db.Close(); err != nil {
+		panic(err)
+	}
+	hook := &xfs.VerifHookFS{FS: mem}
+	cfg.FS = hook
+	ndb, err := Open(cfg)
+	if err != nil {
+		panic(err)
+	}
+	no := false
+	fired := false
+	var werr error
+	newData := []byte{0x30, 0x31}
+	where := verifLen("interleave-at", 0, 1) // 0: at GC's Stat of the data file, 1: when GC opens the copy file
+	var w *Writer
+	early := verifBool("write-before-gc-resumes") // part of the data is written inside the window, the rest after GC
+	run := func() {
+		if fired {
+			return
+		}
+		fired = true
+		if w, werr = ndb.OpenWriter(ctx, WriterConfig{Start: 300, EnableAutoCommit: &no}); werr != nil {
+			return
+		}
+		if early {
+			_, werr = w.Write(newData[:1])
+		}
+	}
+	hook.OnStat = func(name string) {
+		if where == 0 && name == "1.domain" {
+			run()
+		}
+	}
+	hook.OnOpen = func(name string, _ int) {
+		if where == 1 && name == "1.domain_gc" {
+			run()
+		}
+	}
+	gcErr := ndb.GarbageCollect(ctx)
+	hook.OnStat, hook.OnOpen = nil, nil
+	verifAssert("gc-with-interleaved-writer-no-error", gcErr == nil)
+	// the writer carries on after GC has finished
+	if fired && werr == nil {
+		rest := newData
+		if early {
+			rest = newData[1:]
+		}
+		if _, werr = w.Write(rest); werr == nil {
+			if werr = w.Commit(ctx, 320); werr == nil {
+				werr = w.Close()
+			}
+		}
+	}
+	verifAssert("writer-was-interleaved", fired) // GC does reach both interleaving points in this layout
+	verifReach("writer-ran-inside-gc")
+	verifObserveBool("writer-error", werr != nil)
+	want := []verifContent{
+		{tr: telem.TimeRange{Start: telem.TimeStamp(100 + 10*cut), End: 130}, data: specs[0].Data[cut:]},
+		{tr: telem.TimeRange{Start: 200, End: 220}, data: specs[1].Data},
+	}
+	if werr == nil {
+		want = append(want, verifContent{tr: telem.TimeRange{Start: 300, End: 320}, data: newData})
+	}
+	got, ok := verifScan(ndb)
+	verifAssert("scan-after-gc-and-writer-ok", ok)
+	verifAssert("content-keeps-old-and-new-data", verifSameContent(got, want))
+	rdb := VerifReopen(ndb, mem)
+	got2, ok2 := verifScan(rdb)
+	verifAssert("scan-after-reopen-ok", ok2)
+	verifAssert("content-after-reopen-keeps-old-and-new-data", verifSameContent(got2, want))
+	verifReach("end")
+}
+
+// VerifC02LazyRolloverReopen: one auto-committing writer whose index persistence is deferred (one-hour interval
+// on an arbitrary clock) commits chunks that roll over to new files; once the writer is closed everything it
+// committed is on disk: closing and reopening the DB returns exactly the committed bytes, in order, in domains
+// that tile the committed time range.
+func VerifC02LazyRolloverReopen() {
+	fs := xfs.NewMem()
+	db, err := Open(Config{FS: fs, FileSize: 5, GCThreshold: 0.25})
+	if err != nil {
+		panic(err)
+	}
+	ctx := context.Background()
+	yes := true
+	w, err := db.OpenWriter(ctx, WriterConfig{Start: 100, EnableAutoCommit: &yes, AutoIndexPersistInterval: telem.Hour})
+	if err != nil {
+		panic(err)
+	}
+	rounds := verifParam("rounds", 3)
+	var committed []byte
+	end := telem.TimeStamp(100)
+	next := byte(1)
+	for r := 0; r < rounds; r++ {
+		n := verifLen("chunk", 1, 3)
+		chunk := make([]byte, n)
+		for i := range chunk {
+			chunk[i] = next
+			next++
+		}
+		if _, err = w.Write(chunk); err != nil {
+			panic(err)
+		}
+		end += 10
+		if err = w.Commit(ctx, end); err != nil {
+			panic(err)
+		}
+		committed = append(committed, chunk...)
+	}
+	if err = w.Close(); err != nil {
+		panic(err)
+	}
+	check := func(label string, d *DB) {
+		got, ok := verifScan(d)
+		verifAssert(label+"-scan-ok", ok)
+		var bytesGot []byte
+		tiles := true
+		cursor := telem.TimeStamp(100)
+		for _, c := range got {
+			bytesGot = append(bytesGot, c.data...)
+			if c.tr.Start != cursor {
+				tiles = false
+			}
+			cursor = c.tr.End
+		}
+		if cursor != end {
+			tiles = false
+		}
+		same := len(bytesGot) == len(committed)
+		for i := range bytesGot {
+			if i < len(committed) && bytesGot[i] != committed[i] {
+				same = false
+			}
+		}
+		verifAssert(label+"-committed-bytes-in-order", same)
+		verifAssert(label+"-domains-tile-the-committed-range", tiles)
+	}
+	check("lazy-rollover-in-memory", db)
+	check("lazy-rollover-reopened", VerifReopen(db, fs))
+	verifReach("end")
+}
